@@ -62,9 +62,9 @@ theorem C19_base_relocs_ref (f : Fmt) (k : Kind) (img : Img) (v : View) (hv : fr
   rw [hal] at hok
   exact ⟨by show s.off + size ≤ _; omega, hok.2⟩
 
-/-- without the directory: `Null` (rva 0) or `Bounds` (fewer than 6 data directories), never an empty table -/
+/-- without the directory — fewer than 6 data directories, or rva 0 —: `Null`, never an empty table -/
 theorem C19_base_relocs_absent (v : View) :
-    (v.dataDir 5 = none → v.baseRelocsRef = .err .bounds) ∧
+    (v.dataDir 5 = none → v.baseRelocsRef = .err .null) ∧
     (∀ size, v.dataDir 5 = some (0, size) → v.baseRelocsRef = .err .null) := by
   refine ⟨?_, ?_⟩
   · intro h
